@@ -116,6 +116,11 @@ def make_case(rnd, wd, shape, tmpdir_tokens_with_one_iteration=True, dated_first
     if big and hint % 2 == 1 and dated_first_line is None:
         iterations = 1
     tokens = [socket.gethostname(), getpass.getuser(), wd]
+    try:
+        # the machine's address as gentest works it out (127.0.0.1 where the host name resolves to loopback): D40
+        ipaddr = socket.gethostbyname(socket.gethostname())
+    except Exception:
+        ipaddr = None
     if iterations > 1 or tmpdir_tokens_with_one_iteration:
         tokens += ['{TMPDIR}', '{TMPDIR}/scratch.dat']
     files = {}
@@ -169,6 +174,8 @@ def make_case(rnd, wd, shape, tmpdir_tokens_with_one_iteration=True, dated_first
         # a first line of standard output that carries a date decades away from today (ordinary content)
         rest = beh['stdout'].split('\n', 1)[1] if '\n' in beh['stdout'] else ''
         beh['stdout'] = dated_first_line + '\n' + rest
+    if ipaddr and rnd.random() < 0.25:
+        beh['stdout'] = beh['stdout'] + ('' if beh['stdout'].endswith('\n') or not beh['stdout'] else '\n') + 'listening on %s port 80\n' % ipaddr
     if beh['stderr'] and rnd.random() < 0.6:
         # a stderr line that mentions the machine (host / user / working directory)
         beh['stderr'] = beh['stderr'].rstrip('\n') + '\nwarning: running as %s\n' % rnd.choice(tokens[:3])
